@@ -1054,6 +1054,7 @@ pub fn leaves_small(n: usize) -> Vec<Node> {
         Node::Null,
         Node::s("a: b"),
         Node::Int(7),
+        Node::s(" a"),
         Node::s("x\ny\n"),
         Node::Bool(true),
         Node::s("a b"),
@@ -1062,7 +1063,6 @@ pub fn leaves_small(n: usize) -> Vec<Node> {
         Node::s("- a"),
         Node::s("é"),
         Node::s("#a"),
-        Node::s(" a"),
         Node::s("'"),
         Node::s("a\nb"),
         Node::s("\""),
